@@ -254,6 +254,19 @@ def gen(rng, tier):
         _logical[line] = s
         kind = "reencode-canonical-untimed-component" if has_untimed(s) else "reencode-canonical"
         out.append(Case(line, kind=kind, theorem="C09_encode_decode_canonical"))
+    # (a'') arbitrary supported sections (interleaved descriptors, stuffing, legacy command length, any sap_type):
+    # re-encoding gives the canonical form of C09_reencode_normalizes
+    anys = []
+    for _ in range(250 * mult):
+        sg = L.g_signal(rng, pf=rng.choice([0, 2]))
+        if sg[12][0] == 0:
+            sg[8] = 0
+        if L.fits(sg) and not has_untimed(sg):
+            anys.append(sg)
+    for sg, b in zip(anys, L.serialise(anys)):
+        line = "scte.reencode " + hx(b)
+        _logical[line] = sg
+        out.append(Case(line, kind="reencode-any", theorem="C09_reencode_normalizes"))
     # (a') canonical sections the API can express, built by the setter history of C09_build_canonical
     nb = 0
     for sg, b in zip(sigs, data):
@@ -315,6 +328,18 @@ def oracle(c, real, model):
                 return "re-encoding a decoded canonical section does not reproduce it byte for byte"
             if L.crc32_mpeg2(r[1][0]) != 0:
                 return "CRC-32/MPEG-2 of the encoded section is not zero"
+        elif c.kind == "reencode-any":
+            r = parse_val(real)
+            sg = _logical.get(c.line)
+            if sg is not None:
+                if r[0] != 0:
+                    return "a supported section is not decodable: " + real[:80]
+                n = list(sg)
+                n[0] = b""; n[4] = 3; n[11] = 0; n[14] = b""
+                n[13] = [d for d in sg[13] if d[0] == 1] + [d for d in sg[13] if d[0] == 0]
+                want = L.py_ser(L.with_crc(n))[1:]
+                if r[1][0] != want:
+                    return "re-encoding a decoded section does not give its canonical form"
         elif c.kind == "build-canonical":
             r = parse_val(real)
             sg = _logical.get(c.line)
